@@ -39,3 +39,33 @@ var _ *openfgav1.Userset
 //@   ensures exact: result == ite((module == "" && file == "") || !includeSourceInformation, "",
 //@                               " #" + leadingString + " module: " + module + ", file: " + file)
 //@   ensures comment_shape: result == "" || hasPrefix(result, " #")
+
+// ---------------------------------------------------------------------------------------------------------------
+// C02 / C01: the printer. A-TREE: rewrite trees are finite (height decreases towards the children).
+
+//@ opaque height(u *openfgav1.Userset) int
+
+//@ axiom tree_height_nonneg: forall u *openfgav1.Userset :: height(u) >= 0
+//@ axiom tree_union_children: forall u *openfgav1.Userset, i int :: u != nil && 0 <= i && i < len(u.GetUnion().GetChild()) ==> height(u.GetUnion().GetChild()[i]) < height(u)
+//@ axiom tree_intersection_children: forall u *openfgav1.Userset, i int :: u != nil && 0 <= i && i < len(u.GetIntersection().GetChild()) ==> height(u.GetIntersection().GetChild()[i]) < height(u)
+//@ axiom tree_difference_children: forall u *openfgav1.Userset :: u != nil && u.GetDifference() != nil ==> height(u.GetDifference().GetBase()) < height(u) && height(u.GetDifference().GetSubtract()) < height(u)
+
+// isThis(u): u is a direct assignment as the printer recognises it.
+//@ spec isThis(u *openfgav1.Userset) bool = u.GetThis() != nil
+
+// onFirstSpine(u): the direct assignment can be printed first (statement of C02): u is one, or it is a direct child of
+// a union/intersection (the printer hoists it), or the first operand / the base is recursively such a tree.
+//@ spec onFirstSpine(u *openfgav1.Userset) bool =
+//@   isThis(u)
+//@   || (u.GetDifference() != nil && u.GetDifference().GetBase() != nil && onFirstSpine(u.GetDifference().GetBase()))
+//@   || (!(u.GetDifference() != nil && u.GetDifference().GetBase() != nil) && len(u.GetIntersection().GetChild()) > 0
+//@        && ((exists i int :: 0 <= i && i < len(u.GetIntersection().GetChild()) && isThis(u.GetIntersection().GetChild()[i])) || onFirstSpine(u.GetIntersection().GetChild()[0])))
+//@   || (!(u.GetDifference() != nil && u.GetDifference().GetBase() != nil) && !(len(u.GetIntersection().GetChild()) > 0) && len(u.GetUnion().GetChild()) > 0
+//@        && ((exists i int :: 0 <= i && i < len(u.GetUnion().GetChild()) && isThis(u.GetUnion().GetChild()[i])) || onFirstSpine(u.GetUnion().GetChild()[0])))
+
+//@ func (*DirectAssignmentValidator).isFirstPosition
+//@   props C02 C01
+//@   decreases height(userset)
+//@   ensures exact: result == onFirstSpine(userset)
+//@   loop 1 invariant forall i int :: 0 <= i && i < $i ==> !isThis(children[i])
+//@   loop 2 invariant forall i int :: 0 <= i && i < $i ==> !isThis(children[i])
